@@ -13,6 +13,8 @@
      S1    softDelete: before loading the victim's link at level i
      S2    softDelete: before the mark CAS at level i
      DS    deleteNode: victim marked by us, before the clean-up search
+     IT0   Iterator.SeekFirst: before loading head.next[0]
+     IN1   Iterator.Next: before loading curr.next[0]     IN2  Iterator.Next: curr is marked, before the unlink CAS
 
    Every word nx[n][l] = [p, m] is the 64-bit (successor, deleted-mark) word of the real node.
    The maximum level is fixed at Top (the harness raises Skiplist.level first).
@@ -26,10 +28,13 @@
 
    C13: NoDupKeys + fixed linearization points (publish CAS, level-0 mark CAS) + interval justification of
         failed operations (Asserts) + DeleteOnce.
-   C14: QStruct.        C04 (structural half): NoMarkedLinked. *)
+   C14: QStruct.        C04 (structural half): NoMarkedLinked.
+   C15: iterator processes (SeekFirst / Seek / Next at the grain of skiplist/iterator.go) with ghosts:
+        IterNoBackwards, IterOnlyPresent, IterComplete. *)
 EXTENDS Integers, Sequences, FiniteSets, TLC
 
 CONSTANTS Procs, Keys, MaxOps, MaxNodes, Top, FIXK1,
+          IterProcs,     \* processes that only drive an iterator (SeekFirst / Seek / Next); the others mutate
           InFlightDelN   \* TRUE: DeleteNode may target a node whose Insert has not returned yet (its pointer is not available to callers of the public API)
 
 H == 0
@@ -44,17 +49,20 @@ VARIABLES nd,       \* node id -> [key, h, nx: level -> [p, m], pub]
           loc,      \* process -> local record
           nops,
           ever,     \* ghost: was the pending operation's key ever present / absent during its interval
-          delwins   \* ghost: node -> number of successful deletes of that node
+          delwins,  \* ghost: node -> number of successful deletes of that node
+          scan      \* ghost per process: [on, from, yields (sequence of node ids), some, all] of the scan in progress
 
-vars == <<nd, nalloc, loc, nops, ever, delwins>>
+vars == <<nd, nalloc, loc, nops, ever, delwins, scan>>
 
 KeyOf(n) == IF n = H THEN -1 ELSE IF n = T THEN INF ELSE nd[n].key
 Live(n) == n \in 1..nalloc /\ nd[n].pub /\ ~nd[n].nx[0].m
 Abs == {nd[n].key : n \in {m \in 1..nalloc : Live(m)}}
 NoNode == [key |-> 0, h |-> 0, nx |-> [l \in Lvls |-> Ref(T, FALSE)], pub |-> FALSE]
+NoScan == [on |-> FALSE, from |-> -1, yields |-> <<>>, some |-> {}, all |-> {}, done |-> FALSE]
 Idle == [pc |-> "idle", op |-> "none", k |-> 0, x |-> 0, i |-> 0, prev |-> 0, curr |-> 0, next |-> 0,
          preds |-> [l \in Lvls |-> 0], succs |-> [l \in Lvls |-> 0], ret |-> "none", marked |-> FALSE,
-         res |-> "none", del |-> 0, cmp |-> 1, past |-> FALSE, lv |-> 0]
+         res |-> "none", del |-> 0, cmp |-> 1, past |-> FALSE, lv |-> 0,
+         ip |-> 0, ic |-> 0, iv |-> FALSE]        \* iterator cursor: prev, curr, valid
 
 Init ==
   /\ nd = [n \in Ids |-> IF n = H THEN [key |-> -1, h |-> Top, nx |-> [l \in Lvls |-> Ref(T, FALSE)], pub |-> TRUE]
@@ -63,6 +71,7 @@ Init ==
   /\ nalloc = 0 /\ loc = [p \in Procs |-> Idle] /\ nops = [p \in Procs |-> 0]
   /\ ever = [p \in Procs |-> [pres |-> FALSE, abs |-> FALSE]]
   /\ delwins = [n \in Ids |-> 0]
+  /\ scan = [p \in Procs |-> NoScan]
 
 L(p) == loc[p]
 Set(p, r) == loc' = [loc EXCEPT ![p] = r]
@@ -73,7 +82,7 @@ Done(p, r, res) ==
   /\ Assert(r.op = "del" /\ res = "false" => ever[p].abs \/ r.k \notin Abs, "C13: Delete failed although the key was present during the whole call")
   /\ Assert(r.op = "look" /\ res = "false" => ever[p].abs \/ r.k \notin Abs, "C13: Lookup missed a key that was present during the whole call")
   /\ Assert(r.op = "look" /\ res = "true" => ever[p].pres \/ r.k \in Abs, "C13: Lookup found a key that was absent during the whole call")
-  /\ Set(p, [Idle EXCEPT !.res = res, !.op = r.op, !.k = r.k, !.x = r.x])
+  /\ Set(p, [Idle EXCEPT !.res = res, !.op = r.op, !.k = r.k, !.x = r.x, !.ip = r.ip, !.ic = r.ic, !.iv = r.iv])
 
 (* ---- operation starts (the public call up to its first yield point) ---- *)
 StartInsert(p, k, h) ==
@@ -81,20 +90,20 @@ StartInsert(p, k, h) ==
   /\ nalloc' = nalloc + 1
   /\ nd' = [nd EXCEPT ![nalloc + 1] = [key |-> k, h |-> h, nx |-> [l \in Lvls |-> Ref(T, FALSE)], pub |-> FALSE]]
   /\ nops' = [nops EXCEPT ![p] = @ + 1] /\ UNCHANGED delwins
-  /\ Set(p, [Idle EXCEPT !.pc = "FP0", !.op = "ins", !.k = k, !.x = nalloc + 1, !.ret = "ins"])
+  /\ Set(p, [Idle EXCEPT !.pc = "FP0", !.op = "ins", !.k = k, !.x = nalloc + 1, !.ret = "ins", !.ip = L(p).ip, !.ic = L(p).ic, !.iv = L(p).iv])
 StartDelete(p, k) ==
   /\ L(p).pc = "idle" /\ nops[p] < MaxOps
   /\ nops' = [nops EXCEPT ![p] = @ + 1] /\ UNCHANGED <<nd, nalloc, delwins>>
-  /\ Set(p, [Idle EXCEPT !.pc = "FP0", !.op = "del", !.k = k, !.ret = "del"])
+  /\ Set(p, [Idle EXCEPT !.pc = "FP0", !.op = "del", !.k = k, !.ret = "del", !.ip = L(p).ip, !.ic = L(p).ic, !.iv = L(p).iv])
 StartLookup(p, k) ==
   /\ L(p).pc = "idle" /\ nops[p] < MaxOps
   /\ nops' = [nops EXCEPT ![p] = @ + 1] /\ UNCHANGED <<nd, nalloc, delwins>>
-  /\ Set(p, [Idle EXCEPT !.pc = "FP0", !.op = "look", !.k = k, !.ret = "look"])
+  /\ Set(p, [Idle EXCEPT !.pc = "FP0", !.op = "look", !.k = k, !.ret = "look", !.ip = L(p).ip, !.ic = L(p).ic, !.iv = L(p).iv])
 StartDeleteNode(p, n) ==                 \* DeleteNode(n) on a node that was published
   /\ L(p).pc = "idle" /\ nops[p] < MaxOps /\ n \in 1..nalloc /\ nd[n].pub
   /\ InFlightDelN \/ \A q \in Procs : ~(L(q).pc # "idle" /\ L(q).op = "ins" /\ L(q).x = n)
   /\ nops' = [nops EXCEPT ![p] = @ + 1] /\ UNCHANGED <<nd, nalloc, delwins>>
-  /\ Set(p, [Idle EXCEPT !.pc = "S1", !.op = "deln", !.k = nd[n].key, !.del = n, !.i = nd[n].h])
+  /\ Set(p, [Idle EXCEPT !.pc = "S1", !.op = "deln", !.k = nd[n].key, !.del = n, !.i = nd[n].h, !.ip = L(p).ip, !.ic = L(p).ic, !.iv = L(p).iv])
 
 (* ---- findPath -- skiplist.go:214-253 ---- *)
 FP0(p) == /\ L(p).pc = "FP0" /\ UNCHANGED <<nd, nalloc, nops, delwins>>
@@ -120,6 +129,14 @@ AfterFind(p, r) ==
     [] r.ret = "look" -> Done(p, r, IF r.cmp = 0 THEN "true" ELSE "false") /\ nd' = nd /\ UNCHANGED delwins
     [] r.ret = "clean" -> Done(p, r, "true") /\ nd' = nd /\ delwins' = [delwins EXCEPT ![r.del] = @ + 1]
     [] r.ret = "insclean" -> Done(p, r, "true") /\ nd' = nd /\ UNCHANGED delwins
+    [] r.ret = "itseek" ->      \* Iterator.Seek: cursor at the search result
+         nd' = nd /\ UNCHANGED delwins
+         /\ Set(p, [Idle EXCEPT !.op = "itseek", !.k = r.k, !.res = "pos", !.ip = r.preds[0], !.ic = r.succs[0], !.iv = TRUE])
+    [] r.ret = "itnext" ->      \* Iterator.Next lost the unlink race and re-searched its current item
+         nd' = nd /\ UNCHANGED delwins
+         /\ IF r.cmp = 0 /\ r.succs[0] = r.ic
+              THEN Set(p, [r EXCEPT !.pc = "IN1", !.ip = r.preds[0], !.ic = r.succs[0]])      \* same node still there: retry
+              ELSE Set(p, [Idle EXCEPT !.op = "itnext", !.res = "pos", !.ip = r.preds[0], !.ic = r.succs[0], !.iv = TRUE])
 
 LoadNext(p, lbl) ==
   /\ L(p).pc = lbl /\ UNCHANGED <<nalloc, nops>>
@@ -177,9 +194,61 @@ S2(p) == /\ L(p).pc = "S2" /\ UNCHANGED <<nalloc, nops, delwins>>
 DS(p) == /\ L(p).pc = "DS" /\ UNCHANGED <<nd, nalloc, nops, delwins>>
          /\ Set(p, [L(p) EXCEPT !.pc = "FP0", !.ret = "clean", !.past = FIXK1])
 
-Track == ever' = [p \in Procs |-> IF loc'[p].pc = "idle" THEN [pres |-> FALSE, abs |-> FALSE]
+(* ---- Iterator -- skiplist/iterator.go ---- *)
+StartSeekFirst(p) ==
+  /\ L(p).pc = "idle" /\ nops[p] < MaxOps
+  /\ nops' = [nops EXCEPT ![p] = @ + 1] /\ UNCHANGED <<nd, nalloc, delwins>>
+  /\ Set(p, [Idle EXCEPT !.pc = "IT0", !.op = "itfirst", !.k = -1])
+IT0(p) == /\ L(p).pc = "IT0" /\ UNCHANGED <<nd, nalloc, nops, delwins>>
+          /\ Set(p, [Idle EXCEPT !.op = "itfirst", !.k = -1, !.res = "pos", !.ip = H, !.ic = nd[H].nx[0].p, !.iv = TRUE])
+StartSeek(p, k) ==
+  /\ L(p).pc = "idle" /\ nops[p] < MaxOps
+  /\ nops' = [nops EXCEPT ![p] = @ + 1] /\ UNCHANGED <<nd, nalloc, delwins>>
+  /\ Set(p, [Idle EXCEPT !.pc = "FP0", !.op = "itseek", !.k = k, !.ret = "itseek"])
+ItValid(r) == r.iv /\ r.ic # T
+StartNext(p) ==
+  /\ L(p).pc = "idle" /\ nops[p] < MaxOps /\ ItValid(L(p))
+  /\ nops' = [nops EXCEPT ![p] = @ + 1] /\ UNCHANGED <<nd, nalloc, delwins>>
+  /\ Set(p, [Idle EXCEPT !.pc = "IN1", !.op = "itnext", !.k = KeyOf(L(p).ic), !.ip = L(p).ip, !.ic = L(p).ic, !.iv = TRUE])
+IN1(p) == /\ L(p).pc = "IN1" /\ UNCHANGED <<nd, nalloc, nops, delwins>>
+          /\ LET r == L(p) w == nd[r.ic].nx[0] IN
+             IF w.m THEN Set(p, [r EXCEPT !.pc = "IN2", !.next = w.p])
+             ELSE Set(p, [Idle EXCEPT !.op = "itnext", !.res = "pos", !.ip = r.ic, !.ic = w.p, !.iv = TRUE])
+IN2(p) == /\ L(p).pc = "IN2" /\ UNCHANGED <<nalloc, nops, delwins>>
+          /\ LET r == L(p) IN
+             IF nd[r.ip].nx[0] = Ref(r.ic, FALSE)
+               THEN /\ nd' = [nd EXCEPT ![r.ip].nx[0] = Ref(r.next, FALSE)]
+                    /\ Set(p, [Idle EXCEPT !.op = "itnext", !.res = "pos", !.ip = r.ip, !.ic = r.next, !.iv = TRUE])
+               ELSE /\ nd' = nd        \* lost the race: re-search the current item
+                    /\ Set(p, [r EXCEPT !.pc = "FP0", !.k = KeyOf(r.ic), !.ret = "itnext", !.past = FALSE])
+
+(* a deleted node counts as possibly present until it is physically unlinked at level 0: its Delete call has not
+   returned before that, so the deletion may still be linearized later *)
+RECURSIVE Reach0(_, _, _)
+Reach0(f, n, fuel) == IF n = T \/ fuel = 0 THEN {} ELSE {n} \cup Reach0(f, f[n].nx[0].p, fuel - 1)
+AbsLooseOf(f, na) == {f[n].key : n \in {m \in 1..na : f[m].pub /\ (~f[m].nx[0].m \/ m \in Reach0(f, f[H].nx[0].p, MaxNodes + 2))}}
+(* ghost: what a scan has yielded and which keys were present at some / every moment of it *)
+PosReached(p) == loc'[p].pc = "idle" /\ loc'[p].res = "pos" /\ loc[p].pc # "idle"
+ScanStarts(p) == loc[p].pc = "idle" /\ loc'[p].pc # "idle" /\ loc'[p].op \in {"itfirst", "itseek"}    \* the call of SeekFirst / Seek
+TrackScan == scan' = [p \in Procs |->
+   LET s0 == IF ScanStarts(p)
+               THEN [on |-> TRUE, from |-> loc'[p].k, yields |-> <<>>, some |-> AbsLooseOf(nd, nalloc), all |-> Abs, done |-> FALSE]
+               ELSE scan[p]
+       s1 == IF s0.on /\ ~s0.done THEN [s0 EXCEPT !.some = @ \cup AbsLooseOf(nd, nalloc) \cup AbsLooseOf(nd', nalloc'), !.all = @ \cap Abs \cap Abs'] ELSE s0
+   IN IF PosReached(p) /\ s1.on
+        THEN (IF ItValid(loc'[p]) THEN [s1 EXCEPT !.yields = Append(@, loc'[p].ic)] ELSE [s1 EXCEPT !.done = TRUE])
+        ELSE s1]
+
+Track == /\ TrackScan
+         /\ ever' = [p \in Procs |-> IF loc'[p].pc = "idle" THEN [pres |-> FALSE, abs |-> FALSE]
                    ELSE [pres |-> ever[p].pres \/ (loc'[p].k \in Abs) \/ (loc'[p].k \in Abs'),
                          abs |-> ever[p].abs \/ (loc'[p].k \notin Abs) \/ (loc'[p].k \notin Abs')]]
+SeekFirst(p) == StartSeekFirst(p) /\ Track
+Seek(p, k) == StartSeek(p, k) /\ Track
+ItNext(p) == StartNext(p) /\ Track
+aIT0(p) == IT0(p) /\ Track
+aIN1(p) == IN1(p) /\ Track
+aIN2(p) == IN2(p) /\ Track
 (* named wrappers (so that TLC labels every transition with the action and the process) *)
 Insert(p, k, h) == StartInsert(p, k, h) /\ Track
 Delete(p, k) == StartDelete(p, k) /\ Track
@@ -198,11 +267,13 @@ aS1(p) == S1(p) /\ Track
 aS2(p) == S2(p) /\ Track
 aDS(p) == DS(p) /\ Track
 Next == \E p \in Procs :
-           \/ \E k \in Keys, h \in Lvls : Insert(p, k, h)
-           \/ \E k \in Keys : Delete(p, k) \/ Lookup(p, k)
-           \/ \E n \in 1..MaxNodes : DeleteNode(p, n)
+           \/ (p \notin IterProcs /\ \E k \in Keys, h \in Lvls : Insert(p, k, h))
+           \/ (p \notin IterProcs /\ \E k \in Keys : Delete(p, k) \/ Lookup(p, k))
+           \/ (p \notin IterProcs /\ \E n \in 1..MaxNodes : DeleteNode(p, n))
            \/ aFP0(p) \/ aFP1(p) \/ aFP2(p) \/ aFP3(p) \/ aFP4(p) \/ aFP5(p)
            \/ aI2(p) \/ aU1(p) \/ aU3(p) \/ aS1(p) \/ aS2(p) \/ aDS(p)
+           \/ (p \in IterProcs /\ (SeekFirst(p) \/ (\E k \in Keys : Seek(p, k)) \/ ItNext(p)))
+           \/ aIT0(p) \/ aIN1(p) \/ aIN2(p)
 Spec == Init /\ [][Next]_vars
 
 (* ---- properties ---- *)
@@ -221,6 +292,16 @@ QStruct == Quiescent =>
    /\ \A l \in Lvls : Len(ChainL(l)) <= MaxNodes /\ Sorted(SelectSeq(ChainL(l), LAMBDA n : Live(n)))
    /\ Range(ChainL(0)) \cap LiveSet = LiveSet
    /\ \A l \in 1..Top : Range(ChainL(l)) \cap LiveSet = {n \in LiveSet : nd[n].h >= l}
+(* C15: an iterator never goes backwards (an equal key only as a different, re-inserted node), yields only keys
+   that were present at some moment of its scan, and -- once the scan is complete -- has yielded every key
+   that was present during the whole scan and lies at or after its start *)
+YKeys(p) == [i \in 1..Len(scan[p].yields) |-> KeyOf(scan[p].yields[i])]
+IterNoBackwards == \A p \in Procs : LET y == scan[p].yields IN
+   \A i \in 1..(Len(y) - 1) : KeyOf(y[i]) < KeyOf(y[i + 1]) \/ (KeyOf(y[i]) = KeyOf(y[i + 1]) /\ y[i] # y[i + 1])
+IterOnlyPresent == \A p \in Procs : \A i \in 1..Len(scan[p].yields) : KeyOf(scan[p].yields[i]) \in scan[p].some
+IterSeekLands == \A p \in Procs : \A i \in 1..Len(scan[p].yields) : KeyOf(scan[p].yields[i]) >= scan[p].from
+IterComplete == \A p \in Procs : scan[p].done =>
+   \A k \in scan[p].all : k >= scan[p].from => \E i \in 1..Len(scan[p].yields) : KeyOf(scan[p].yields[i]) = k
 (* C04, structural half: at quiescence no deleted (marked) node is reachable at any level *)
 NoMarkedLinked == Quiescent => \A l \in Lvls : \A n \in Range(ChainL(l)) : Live(n)
 =============================================================================
